@@ -80,7 +80,7 @@ def main():
         if isinstance(case, dict) and case.get('_interpreter') and not os.environ.get('VERIF_CHILD'):
             # found by the variant run: replay it under the same interpreter settings
             import subprocess
-            env = dict(os.environ, VERIF_CHILD='1', VERIF_WERROR='1', PYTHONIOENCODING='ascii')
+            env = dict(os.environ, VERIF_CHILD='1', VERIF_WERROR='1', PYTHONIOENCODING='ascii', **VARIANT_ENV)
             env.pop('PYTHONWARNINGS', None)
             p = subprocess.run([sys.executable, '-B', '-O', '-bb', os.path.join(HERE, 'run_check.py'), pid, '--replay',
                                 args.replay], env=env, cwd=HERE)
@@ -118,6 +118,12 @@ def main():
     return ctx.finish()
 
 
+# The child also lives in a different process environment: another (fixed) string-hash seed, the plain C locale without
+# UTF-8 coercion, a far-away time zone, and an empty scratch directory as its working directory.
+VARIANT_ENV = {'PYTHONHASHSEED': '4242', 'LC_ALL': 'C', 'LANG': 'C', 'PYTHONCOERCECLOCALE': '0', 'PYTHONUTF8': '0',
+               'TZ': 'Pacific/Kiritimati'}
+
+
 def run_variant(ctx, pid, tier, seed):
     """The same check once more, reduced, in a child interpreter started the way some deployments start Python:
     optimised (-O: asserts and __debug__ blocks are stripped), with bytes/str confusion as an error (-bb), with warnings
@@ -125,14 +131,19 @@ def run_variant(ctx, pid, tier, seed):
     import json as _json
     import re
     import subprocess
-    env = dict(os.environ, VERIF_CHILD='1', VERIF_WERROR='1', PYTHONIOENCODING='ascii', VERIF_SEED=str(seed))
+    import shutil
+    import tempfile
+    env = dict(os.environ, VERIF_CHILD='1', VERIF_WERROR='1', PYTHONIOENCODING='ascii', VERIF_SEED=str(seed), **VARIANT_ENV)
     env.pop('PYTHONWARNINGS', None)
     cmd = [sys.executable, '-B', '-O', '-bb', os.path.join(HERE, 'run_check.py'), pid, '--tier', 'quick']
+    elsewhere = tempfile.mkdtemp(prefix='verif_variant_cwd_')
     try:
-        p = subprocess.run(cmd, capture_output=True, text=True, env=env, cwd=HERE, timeout=3600)
+        p = subprocess.run(cmd, capture_output=True, text=True, env=env, cwd=elsewhere, timeout=3600)
     except subprocess.TimeoutExpired:
         ctx.notes.append('variant run (python -O -bb, warnings as errors): wall-clock budget reached - inconclusive')
         return
+    finally:
+        shutil.rmtree(elsewhere, ignore_errors=True)
     out = p.stdout + p.stderr
     m = re.search(r'evaluations=(\d+) distinct_nontrivial=(\d+)', out)
     if m:
